@@ -694,6 +694,48 @@ func doRace(o *opts) map[string]any {
 			fatal(fmt.Errorf("race output: %v: %.300s\n%.2000s", err, so, se))
 		}
 	}
+	// Cold-start pass: one fresh process per scenario whose first action is the concurrent run (races on
+	// lazily initialised package-level state only exist before the first compilation has finished).
+	coldRuns, coldMismatch := 0, 0
+	if crash == "" {
+		var names []string
+		if lo, _, lerr := run(o.root, os.Environ(), bin, "list", "--repo", o.repo); lerr == nil {
+			json.Unmarshal(lo, &names)
+		}
+		var mu sync.Mutex
+		var cwg sync.WaitGroup
+		sem := make(chan struct{}, o.procs)
+		for _, nm := range names {
+			if o.only != "" && !strings.Contains(nm, o.only) {
+				continue
+			}
+			cwg.Add(1)
+			sem <- struct{}{}
+			go func(nm string) {
+				defer cwg.Done()
+				defer func() { <-sem }()
+				cso, cse, cerr := run(o.root, env, bin, "race-cold", "--repo", o.repo, "--only", nm)
+				mu.Lock()
+				defer mu.Unlock()
+				coldRuns++
+				if cerr != nil {
+					if m := regexp.MustCompile(`(?m)^fatal error: (.*)$`).FindSubmatch(cse); m != nil {
+						res.Mismatches = append(res.Mismatches, "cold|"+nm+"|crash: thread 0 (x) output fatal error: "+string(m[1]))
+						coldMismatch++
+						return
+					}
+				}
+				var cr struct {
+					Mismatches []string `json:"mismatches"`
+				}
+				if json.Unmarshal(cso, &cr) == nil {
+					res.Mismatches = append(res.Mismatches, cr.Mismatches...)
+					coldMismatch += len(cr.Mismatches)
+				}
+			}(nm)
+		}
+		cwg.Wait()
+	}
 	logs, _ := filepath.Glob(filepath.Join(logDir, "race.*"))
 	var all strings.Builder
 	all.Write(se)
@@ -741,7 +783,7 @@ func doRace(o *opts) map[string]any {
 	}
 	return map[string]any{
 		"ok": len(vs) == 0, "violations": vs,
-		"counts":           map[string]any{"scenarios": res.Scenarios, "repetitions": reps, "concurrent_runs": res.Runs, "race_reports": len(reports), "distinct_races": countPrefix(vs, "data race:"), "output_mismatches": len(res.Mismatches)},
+		"counts":           map[string]any{"scenarios": res.Scenarios, "repetitions": reps, "concurrent_runs": res.Runs, "race_reports": len(reports), "distinct_races": countPrefix(vs, "data race:"), "output_mismatches": len(res.Mismatches), "cold_start_runs": coldRuns, "cold_start_mismatches": coldMismatch},
 		"missing_programs": res.Missing,
 		"race_log_dir":     logDir,
 	}
